@@ -42,7 +42,9 @@ def efficiency_bin(G, local=False):
         while np.any(L):
             D += n * L
             n += 1
-            nPATH = np.dot(nPATH, g)
+            # support only: as walk counts the products overflow to inf / nan on
+            # a dense block with a long tail (see distance_bin)
+            nPATH = (np.dot(nPATH, g) != 0).astype(float)
             L = (nPATH != 0) * (D == 0)
         D[np.logical_not(D)] = np.inf
         D = 1 / D
